@@ -17,7 +17,11 @@ def run_one(prop, patch):
             return dict(patch=os.path.basename(patch), kind=kind, result='skipped', detail='patch does not apply to the current tree')
         os.makedirs(d + '/verif/evidence')
         shutil.copy(V + '/known_findings.json', d + '/verif/known_findings.json')
-        r = subprocess.run([V + '/bin/godcheck', '-property', prop, '-tier', 'quick', '-repo', d + '/repo', '-verif', d + '/verif'], capture_output=True, text=True)
+        for attempt in range(3):
+            r = subprocess.run([V + '/bin/godcheck', '-property', prop, '-tier', 'quick', '-repo', d + '/repo', '-verif', d + '/verif'], capture_output=True, text=True)
+            # exit codes other than 0/1, or a loader failure that is not a type error (go list killed under load), are retried
+            if r.returncode in (0, 1) and not re.search(r'UNRESOLVED: (packages\.Load|only \d+ packages)', r.stdout):
+                break
         fired = re.findall(r'^(VIOLATION|UNRESOLVED) (C\d+-\S+)', r.stdout, re.M)
         keys = [k for _, k in fired]
         if any(k.endswith('-loader') for k in keys):
